@@ -100,12 +100,11 @@ def _trunc_sql(
     node = expression.this.this if isinstance(expression.this, exp.Cast) else expression.this
     expr_sql = self.sql(node)
     if isinstance(node, exp.Literal) and node.is_string:
+        text = self.escape_str(node.this)
         expr_sql = (
-            f"{kind} '{node.this.replace('T', ' ')}'"
-            if kind == "TIMESTAMP"
-            else f"DATE '{node.this}'"
+            f"{kind} '{text.replace('T', ' ')}'" if kind == "TIMESTAMP" else f"DATE '{text}'"
         )
-    return f"DATE_TRUNC('{unit}', {expr_sql})"
+    return f"DATE_TRUNC('{self.escape_str(unit)}', {expr_sql})"
 
 
 def _date_trunc_sql(self: ExasolGenerator, expression: exp.DateTrunc) -> str:
